@@ -43,6 +43,14 @@ Theorem C03_linear : forall a b u v K A,
 Proof. eapply custom_linear; eassumption. Qed.
 Theorem C03_zero_to_zero : forall K A, cust fzero K A = fzero.
 Proof. eapply custom_zero; eassumption. Qed.
+Theorem C03_zero_to_zero_other_forms : forall K h c,
+  cent fzero K = fzero /\ conv_centered F Finv S Sinv fzero h = fzero /\ fraun F S Sinv fzero c = fzero.
+Proof.
+  intros K h c. split; [|split].
+  - eapply centered_zero; eassumption.
+  - eapply conv_centered_zero; eassumption.
+  - eapply fraun_zero; eassumption.
+Qed.
 Theorem C03_linear_numpy_fresnel : forall a b u v K,
   cent (fadd (fscal a u) (fscal b v)) K = fadd (fscal a (cent u K)) (fscal b (cent v K)).
 Proof. eapply centered_linear; eassumption. Qed.
